@@ -1,4 +1,5 @@
 pub mod c11_refpp;
+pub mod cexec;
 pub mod diffexec;
 pub mod irck;
 pub mod irexec;
